@@ -22,6 +22,10 @@ def configs(tier):
     # a name containing a literal "%41" next to the name it would decode to: no view may confuse the two
     out.append(Config(front="wsgi", backend="tree", prefix="/dav/", threshold=0, features={"views", "head"}, names={"cal": ["ev%41.ics", "evA.ics"], "ab": [], "c2": []},
                       bodies={"cal": ["X", "Z"], "ab": [], "c2": []}, oracles={"C02"}, label="tree/wsgi@/dav/+percent-names"))
+    # members that were uploaded under a media type the server does not validate (no Content-Type at all, octet-stream):
+    # stored byte for byte under a .ics name; every view must still serve the same bytes under the same ETag
+    out.append(Config(front="wsgi", backend="tree", prefix="/", threshold=0, features={"views", "head"}, names={"cal": ["a.ics", "b.ics"], "ab": [], "c2": []},
+                      bodies={"cal": ["X", "XRAW", "XRAW2"], "ab": [], "c2": []}, ct_for={"XRAW": "application/octet-stream", "XRAW2": "(none)"}, oracles={"C02"}, label="tree/wsgi+raw-uploads"))
     if tier == "thorough":
         out += [
             Config(front="aio", backend="tree", prefix="/a/b/", threshold=0, features=feats, bodies=bodies, props=props, oracles={"C02"}),
